@@ -53,7 +53,12 @@ class NfdRegister(PrefixRegisterer):
                     app_param=b'', signer=sec.DigestSha256Signer(for_interest=True),
                     validator=pass_all,
                     lifetime=1000)
-                ret = nfd_mgmt.parse_response(reply)
+                try:
+                    ret = nfd_mgmt.parse_response(reply)
+                except (enc.DecodeError, ValueError, IndexError, TypeError, struct.error):
+                    logging.getLogger(__name__).error('Registration for %s failed: undecodable response',
+                                                      enc.Name.to_str(name))
+                    return False
                 if ret['status_code'] != 200:
                     logging.getLogger(__name__).error('Registration for %s failed: %s %s',
                                                       enc.Name.to_str(name), ret["status_code"], ret["status_text"])
